@@ -168,6 +168,25 @@ def case_roundtrip(case):
             got, want = float(cp.get(L).value), orig[L]
             if ulps(got, want) > 8:
                 vs.append(V("restore-from-history-not-identity", label=L, kind=kind, got=got, want=want))
+    # history of the object: options edited after the set has been exported once (fit, then fix a parameter, then fit
+    # again on the same object) - the selection handed to the optimiser follows the current options
+    with warnings.catch_warnings():
+        warnings.simplefilter("ignore")
+        edited = params.copy()
+        edited.get_label_value_and_bounds_arrays(exclude_non_vary=True)
+        for L, (kind, _) in zip(labels, case["params"]):
+            p = edited.get(L)
+            if kind in ("fixed", "expr"):
+                continue
+            p.vary = False
+            lab2 = list(edited.get_label_value_and_bounds_arrays(exclude_non_vary=True)[0])
+            if L in lab2:
+                vs.append(V("parameter-fixed-after-a-first-export-still-handed-to-the-optimiser", label=L, kind=kind))
+            p.vary = True
+            lab3 = list(edited.get_label_value_and_bounds_arrays(exclude_non_vary=True)[0])
+            if L not in lab3:
+                vs.append(V("parameter-freed-after-a-first-export-not-handed-to-the-optimiser", label=L, kind=kind))
+            break
     # history of constructions: a second, newer parameter set with other values exists while the first makes the trip
     with warnings.catch_warnings():
         warnings.simplefilter("ignore")
